@@ -51,10 +51,10 @@ def _decycle(spec):
 # objective-fraction row, the total-flux cap
 @st.composite
 def cases(draw):
-    fn = draw(st.sampled_from(["fva", "fva", "blocked", "essential_genes", "essential_rxns", "single_gene", "single_rxn", "double_gene", "double_rxn", "optgp"]))
+    fn = draw(st.sampled_from(["fva", "fva", "fva", "blocked", "essential_genes", "essential_rxns", "single_gene", "single_rxn", "double_gene", "double_rxn", "optgp"]))
     spec = draw(specs.model_spec(max_mets=5, min_mets=3, max_rxns=9, min_rxns=4, max_genes=6, min_genes=2, families=("pathway", "pathway", "sparse"),
                                  palette="finite0" if fn in ("blocked", "optgp") else "finite", objective="nonneg", solvers=("glpk",), directions=("max",)))
-    fva_opts = draw(st.sampled_from([{}, {}, {"loopless": True}, {"loopless": True}, {"fraction_of_optimum": 0.5},
+    fva_opts = draw(st.sampled_from([{}, {}, {"loopless": True}, {"loopless": True}, {"loopless": True}, {"fraction_of_optimum": 0.5},
                                      {"pfba_factor": 1.5}, {"fraction_of_optimum": 0.9, "pfba_factor": 1.1}]))
     if fn == "fva" and fva_opts.get("loopless"):
         _decycle(spec)
